@@ -65,6 +65,18 @@ def recoverG (g : GFiles) : Option WhyZ :=
   else if g.outHash && !g.rpHash then some .other
   else none
 
+/-- **No idempotence.** A restart that finds no head installs genesis AGAIN: `apply_block(genesis)`
+PUSHES the genesis output / range proof / kernel onto whatever the files hold (`batch.get_output_pos`
+finds nothing in the empty database, so `DuplicateCommitment` is not raised). If the output and
+range-proof files already hold the genesis entry the MMRs then hold it TWICE (output MMR size 3 where
+the genesis header says 1) and the output-position index and the leaf set name the SECOND copy. Nothing
+notices at height 0 (`validate` does not check roots at genesis); the first block's
+`rewind_and_apply_fork(genesis)` rewinds every MMR to the genesis header's sizes, which drops the second
+copy — the chain then syncs — but the index entry and the leaf-set bit of the genesis output pointed at
+the dropped copy: a block that spends the genesis output is refused (`AlreadySpent`), on every later
+start too. `true` = the genesis output is still spendable after the node has opened. -/
+def genesisOutputSpendable (g : GFiles) : Bool := g.committed || !(g.outHash && g.rpHash)
+
 /-- labels of the first start (for `Drv/CrashD.lean`); the commit of `setup_head` is the last but one
 LMDB commit of `Chain::init` -/
 def gstepOfLabel (l : String) : Option GStep :=
